@@ -29,7 +29,6 @@ Exit 0 held / 1 violation / 3 checker problem (vacuity guard failed, crash).
 """
 from __future__ import annotations
 
-import fnmatch
 import json
 import multiprocessing as mp
 import os
@@ -62,6 +61,12 @@ G: dict = {}   # state inherited by forked workers: tables, specs, configuration
 def oname(rec, suffix=LEMMA):
     label = rec["label"].replace("/", "_")
     return "tokenizers.EXTRACTORS[%d:%s]/%s" % (rec["index"], label, suffix)
+
+
+def _glob(pattern: str, name: str) -> bool:
+    """`*` is the only wildcard (obligation names contain [ and ])."""
+    import re as _re
+    return _re.fullmatch(".*".join(_re.escape(p) for p in pattern.split("*")), name) is not None
 
 
 def child_env():
@@ -470,7 +475,7 @@ def _main(run, args, seed, tier, jobs, budget, tmp) -> int:
     def finding_for(rec):
         for f in known:
             labels = set(f.get("extractors", [])) | {w.get("extractor") for w in f.get("witnesses", [])}
-            if rec["label"] in labels and fnmatch.fnmatchcase(oname(rec), f.get("obligation", "*") + "*"):
+            if rec["label"] in labels and _glob(f.get("obligation", "*") + "*", oname(rec)):
                 return f
         return None
 
